@@ -64,7 +64,8 @@ def run(ctx):
     cid = {id(d) for d in concrete}
     others = [d for d in dis if id(d) not in cid]
     recorded = 0
-    for d in concrete[:50]:
+    for d in concrete:
+        if recorded >= 50: break      # cap on RECORDED violations: hits of known findings must not use it up
         recorded += ctx.violation({"kind": "input", "input": d["op"], "actual": d["impl"], "expected": d["model"],
                        "correspondence": d["correspondence"], "monitor": "Spec/Partitioners reference value / property monitor false on the implementation's output"},
                       True, signature="%s => %s" % (d["op"], d["impl"]))
